@@ -311,8 +311,8 @@ func (s *KevoServiceServer) TxGet(ctx context.Context, req *pb.TxGetRequest) (*p
 	}
 
 	if len(req.Key) == 0 || len(req.Key) > s.maxKeySize {
-		// For invalid inputs, consider automatically releasing the transaction
-		s.txRegistry.Remove(req.TransactionId)
+		// A bad argument fails this call only; the transaction stays registered
+		// and usable, exactly as for an invalid TxPut/TxDelete
 		return nil, fmt.Errorf("invalid key size")
 	}
 
